@@ -75,6 +75,8 @@ type oracle struct {
 	curIn     string
 	shrinking bool
 	seen      map[string]int
+	wd        *watchdog
+	failCount int
 }
 
 // guard is cx.Guard with the panic failure routed through o.fail (so that it gets shrunk).
@@ -82,7 +84,13 @@ func (o *oracle) guard(key string, f func()) bool {
 	saved := o.cx.Res
 	tmp := lib.NewResult(saved.Property, saved.Tier, saved.Seed)
 	o.cx.Res = tmp
+	if o.wd != nil {
+		o.wd.begin(key, o.curIn)
+	}
 	ok := o.cx.Guard(key, o.curIn, f)
+	if o.wd != nil {
+		o.wd.end()
+	}
 	o.cx.Res = saved
 	for _, fl := range tmp.Failures {
 		o.fail(fl)
@@ -110,6 +118,7 @@ func (o *oracle) fail(f lib.Failure) {
 		o.seen = map[string]int{}
 	}
 	o.seen[f.Key]++
+	o.failCount++
 	if o.shrinking || o.seen[f.Key] > 1 || len(o.curSrc) > 8000 || len(o.curSrc) < 2 {
 		o.cx.Res.Fail(f)
 		return
@@ -244,6 +253,7 @@ func (o *oracle) check(src []byte, op docOpts) bool {
 		return true
 	}
 	exprOK, fileOK := !ediags.HasErrors(), !fdiags.HasErrors()
+	o.corr(src, exprOK)
 	wantFile := refOK && (tree.K == jArr || tree.K == jObj)
 
 	mismatchKey := func(implAccepts bool, d hcl.Diagnostics) string {
@@ -286,6 +296,7 @@ func (o *oracle) check(src []byte, op docOpts) bool {
 	}
 
 	// (2) literal-only mode
+	failsBefore := o.failCount
 	st := &litStats{}
 	dup := hasDupNames(tree)
 	var v cty.Value
@@ -313,7 +324,8 @@ func (o *oracle) check(src []byte, op docOpts) bool {
 	}
 
 	// (3) full-expression mode
-	if op.full {
+	if op.full && o.failCount == failsBefore {
+		// (a document whose literal-only mapping is already wrong is not reported a second time)
 		o.checkFull(expr, tree, in)
 	}
 	return st.nontrivial || tree.K >= jArr
